@@ -109,7 +109,7 @@ func c03Recipe(c *core.Ctx, r ref.CharRecipe, full bool) {
 			return false
 		}
 		if !out.HasPw {
-			if t.Words == 0 {
+			if t.Words == 0 || modelVerdict(r) != "accept" {
 				c.Count("recipes_refused", 1)
 				return false
 			}
